@@ -17,7 +17,8 @@
      run (in_place=False)                     net = deepcopy(self) (the copy carries self._state_var_indices) ; compile ;
                                               get_variable_positions -> np.arange over self._state_var_indices[v] ;
                                               `self._state_var_values[key] = final state`
-   The bookkeeping is written onto `self` although in_place=False: `book` below.  `sv` abstracts `_state_var_values`
+   Before fix D74 the bookkeeping was written onto `self` although in_place=False (`book` below, `fixed` = false); since D74
+   it stays on the deep copy (`fixed` = true).  `sv` abstracts `_state_var_values`
    (empty / the declared initial values stored by a compile with vectorize=v / the final state of runs, last one with
    vectorize=vlast, `mixed` when runs with both settings wrote into the dictionary); `si` = `_state_var_indices` holds
    integer slots (set by a NON-vectorized get_run_func / get_jacobian_func; a vectorized compile stores ranges, which
@@ -43,6 +44,8 @@ Inductive mop :=
 | MToYaml
 | MDeepcopy
 | MUpdateTemplate (es : list edge)
+| MDeriveEdit (s t : string) (upd : vars)   (* d = self.update_template(nodes|circuits = ..) (no edges, no in_place);
+                                              d.update_var(edge_vars=[(s, t, upd)]) *)
 | MNewObject (o : obj)            (* a derived template object is created: OperatorTemplate.update_template(equations=..) *)
 | MCompile (jac vec : bool)
 | MRun (vec : bool)
@@ -50,7 +53,7 @@ Inductive mop :=
 Inductive yout := YDeclared | YCarried | YErr.
 Inductive mout :=
 | RPaths (r : option (list path)) | RNode (a : option anode) | REdges (e : option (list edge)) | REdge (a : option vars)
-| RDone | RCompile (y : yout) | RRun (ok : bool) | RObs (o : hout).
+| RDone | RRaised | RCompile (y : yout) | RRun (ok : bool) | RObs (o : hout).
 
 Fixpoint first_edge (es : list edge) (s t : string) : option vars :=
   match es with
@@ -97,12 +100,16 @@ Definition run_book (b : book) (vec : bool) : book :=
                end) false.
 
 Definition mstate := (heap * book)%type.
-(* One-line switch.  false = the code as it is (bookkeeping written onto `self`).  true = the proposed repair
-   /verif/fixes/proposed_fix_C14_state_carry.diff: with in_place=False the bookkeeping is read from and written to the deep
-   copy `net`, `self` keeps the bookkeeping it had.  harness/c14.py reads this line (or VERIF_C14_FIXED=1). *)
-Definition fixed_state_carry : bool := false.
+(* One-line switches, read by harness/c14.py (overridable by VERIF_C14_FIXED / VERIF_C14_EDGES_FIXED).
+   fixed_state_carry: true since fix D74 (with in_place=False the state bookkeeping is read from and written to the deep
+   copy, `self` keeps the bookkeeping it had); false = the mechanism before D74, kept for the regression lemmas.
+   fixed_shared_edge_dicts: false = the code as it is: update_template without `edges` hands `self.edges` to the constructor,
+   which builds new tuples around the SAME attribute dictionaries, so an edge update on the derived template is an edge update
+   on its base; true = the proposed repair /verif/fixes/proposed_fix_C14_shared_edge_dicts.diff (the edge list is deep-copied). *)
+Definition fixed_state_carry : bool := true.
+Definition fixed_shared_edge_dicts : bool := false.
 
-Definition mstep_gen (fixed : bool) (d : nat) (r : id) (s : mstate) (o : mop) : mstate * mout :=
+Definition mstep_gen (fixed fixed_e : bool) (d : nat) (r : id) (s : mstate) (o : mop) : mstate * mout :=
   let '(h, b) := s in
   match o with
   | MRead q => (s, read d r h q)
@@ -113,6 +120,16 @@ Definition mstep_gen (fixed : bool) (d : nat) (r : id) (s : mstate) (o : mop) : 
     | Some (OCirc ch es0) => ((h ++ [OCirc ch (es0 ++ es)], b), RDone)
     | _ => (s, RDone)
     end
+  | MDeriveEdit sv tv upd =>
+    match lookup h r with
+    | Some (OCirc ch es0) =>
+      let h1 := h ++ [OCirc ch es0] in                       (* the derived template object *)
+      match edges_update es0 sv tv upd with
+      | Some es' => ((if fixed_e then h1 else hset h1 r (OCirc ch es'), b), RDone)   (* the base sees the write *)
+      | None => ((h1, b), RRaised)                           (* get_edge: KeyError *)
+      end
+    | _ => (s, RRaised)
+    end
   | MNewObject o => ((h ++ [o], b), RDone)
   | MCompile _ vec => ((deepcopy_heap d r h, if fixed then b else compile_book b vec), RCompile (compile_out b vec))
   | MRun vec => ((deepcopy_heap d r h, if fixed then b else run_book b vec), RRun (negb (si b)))
@@ -122,19 +139,25 @@ Definition mstepS (d : nat) (t : atree) (o : mop) : mout :=
   match o with
   | MRead q => tread t q
   | MToYaml | MDeepcopy | MUpdateTemplate _ | MNewObject _ => RDone
+  | MDeriveEdit sv tv _ => match first_edge (root_edges t) sv tv with Some _ => RDone | None => RRaised end
   | MCompile _ _ => RCompile YDeclared
   | MRun _ => RRun true
   | MObserve => RObs (tobserve d t [] [])
   end.
-Fixpoint mrun_gen (fixed : bool) (d : nat) (r : id) (s : mstate) (ops : list mop) : mstate * list mout :=
+Fixpoint mrun_gen (fixed fixed_e : bool) (d : nat) (r : id) (s : mstate) (ops : list mop) : mstate * list mout :=
   match ops with
   | [] => (s, [])
-  | o :: rest => let '(s1, out) := mstep_gen fixed d r s o in let '(s2, outs) := mrun_gen fixed d r s1 rest in (s2, out :: outs)
+  | o :: rest => let '(s1, out) := mstep_gen fixed fixed_e d r s o in
+                 let '(s2, outs) := mrun_gen fixed fixed_e d r s1 rest in (s2, out :: outs)
   end.
-Definition mstep := mstep_gen false.     (* the code as it is *)
-Definition mrun := mrun_gen false.
+Definition mstep := mstep_gen fixed_state_carry fixed_shared_edge_dicts.     (* the code as it is *)
+Definition mrun := mrun_gen fixed_state_carry fixed_shared_edge_dicts.
 
-(* guard: no bookkeeping written by an earlier call is read by a later one *)
+(* guard of the known finding C14-shared-edge-dicts *)
+Definition is_derive_edit (o : mop) : bool := match o with MDeriveEdit _ _ _ => true | _ => false end.
+Definition no_derive_edit (ops : list mop) : bool := negb (existsb is_derive_edit ops).
+
+(* guard of the state-carry defect as it was before fix D74: no bookkeeping written by an earlier call is read by a later one *)
 Fixpoint carry_free (seen_run : bool) (seen_c : option bool) (ops : list mop) : bool :=
   match ops with
   | [] => true
@@ -153,7 +176,7 @@ Definition yout_eqb (a b : yout) : bool :=
 (* what the real code reported for one operation *)
 Inductive pymout :=
 | PPaths (r : option (list path)) | PNodeOps (names : option (list string)) | PEdgeCount (n : option nat) | PEdgeW (w : option Qc)
-| PDone' | PCompile (y : yout) | PRun (ok : bool) | PObs' (keys : list (okey * val)) (pairs : list (string * string * Qc)).
+| PDone' | PRaised' | PCompile (y : yout) | PRun (ok : bool) | PObs' (keys : list (okey * val)) (pairs : list (string * string * Qc)).
 Definition mout_ok (inputs : list string) (m : mout) (p : pymout) : bool :=
   match m, p with
   | RPaths (Some a), PPaths (Some b) => paths_eqb a b
@@ -164,6 +187,7 @@ Definition mout_ok (inputs : list string) (m : mout) (p : pymout) : bool :=
   | REdge (Some a), PEdgeW (Some w) => Qc_eqb (weight_of a) w
   | REdge None, PEdgeW None => true
   | RDone, PDone' => true
+  | RRaised, PRaised' => true
   | RCompile a, PCompile b => yout_eqb a b
   | RRun a, PRun b => Bool.eqb a b
   | RObs o, PObs' k e => obs_ok inputs o k e
